@@ -25,7 +25,8 @@ pub fn run(prop: &str, ctx: &mut Ctx) -> bool {
     match prop {
         "C06" => c06::run(ctx),
         "C05" => c05::run(ctx),
-        "C19" => c19::run(ctx),
+        // C19 also covers the sound notification queue and the socket receive path (bytes delivered = bytes the packet holds)
+        "C19" => { c19::run(ctx); c20_snd::run_notifications(ctx); c17::run_read_header(ctx); }
         "C07" => { c07::run(ctx); c13::run_device_chosen(ctx); }
         "C10" => c10::run(ctx),
         "C12" => c12::run(ctx),
@@ -37,7 +38,7 @@ pub fn run(prop: &str, ctx: &mut Ctx) -> bool {
                 ctx.tr.scenario("c03-soak-n8-indirect-eventidx"); qrig::soak::<8>(ctx, 3, 70_000);
             }
             // C04 at driver level: a driver that keeps several requests outstanding under tokens (sound PCM)
-            if prop == "C04" { c20_snd::run_nb(ctx); }
+            if prop == "C04" { c20_snd::run_nb(ctx); c06::run_alloc_faults(ctx); }
         }
         "C14" => c14::run(ctx),
         "C15" => c15::run(ctx),
